@@ -718,6 +718,10 @@ class Run:
             except Exception as e:
                 self.mm("unexpected_exception", f"job.{name[4:]}() raised {type(e).__name__}: {e}")
                 return
+            # clear()/reset() empty the document through job.document -- the handle's CURRENT object, which is not
+            # the held reference when that reference was taken before a remove()+init()
+            if getattr(job, "_document", None) is not None:
+                self._op_objs.add(id(job._document))
             self.model[t] = {}
             self.cl.add(name)
             return
@@ -736,6 +740,7 @@ class Run:
             self.refresh_others(t, h, "remove")
             try:
                 real = rplain(job.doc())
+                self._op_objs.add(id(job._document))
             except Exception as e:
                 self.mm("doc_after_remove", f"job.doc() after remove()+init() raised {type(e).__name__}: {e}")
                 return
